@@ -357,14 +357,32 @@ def generate(repo):
     out.item('tm_stop_running', running_value('stop', 'tm_stop_running'))
 
     def tm_stop_test():
+        """ the test of stop()'s leading `if`, literally, in either of the
+        two equivalent layouts `if T: <body>` (nothing after it) and
+        `if T': return` followed by the body; the interpreter of the
+        extracted tree decides that `if` with this expression, whatever its
+        polarity (Props/C02.v: C02_thread_manager_stop) """
         f = tm_fn('stop')
-        i = one([n for n in strip(f.body)], "ThreadManager.stop: body is "
-                "one `if`", f)
-        need(isinstance(i, ast.If) and not strip(i.orelse),
-             "ThreadManager.stop: not a lone `if` without else", i)
+        body = strip(f.body)
+        need(body and isinstance(body[0], ast.If),
+             "ThreadManager.stop: does not start with an `if`", f)
+        i = body[0]
+        need(not strip(i.orelse), "ThreadManager.stop: the `if` has an "
+             "else branch", i)
+        guard_only = (len(strip(i.body)) == 1 and
+                      isinstance(strip(i.body)[0], ast.Return) and
+                      strip(i.body)[0].value is None)
+        need(len(body) == 1 or guard_only,
+             "ThreadManager.stop: neither a lone `if T: ..` nor "
+             "`if T: return` followed by the body", i)
+        for n in body[1:]:
+            need(not any(isinstance(m, ast.If) for m in ast.walk(n)),
+                 "ThreadManager.stop: a second test", n)
         tr = Tr(subst={'self.running': ('running', 'bool', ['running'])})
         t, ty = tr.expr(i.test)
         need(ty == 'bool', "ThreadManager.stop: test not boolean", i)
+        need(tr.free == ['running'] or tr.free == [],
+             f"ThreadManager.stop: the test reads {tr.free}", i)
         return (f"(* ThreadManager.stop: if {U(i.test)}: *)\n"
                 f"Definition tm_stop_test (running : bool) : bool := {t}.\n",
                 {'test': U(i.test)})
@@ -504,6 +522,108 @@ def generate(repo):
     out.item('run_single_manager_mode',
              manager_mode('FileSearcher._run_single',
                           'run_single_manager_mode'))
+
+    # ------------------------------------------ SearchCatalog.get_source_id
+    def source_ids():
+        f = find_def(s_tree, 'SearchCatalog.get_source_id')
+        params = [a.arg for a in f.args.args]
+        need(len(params) == 2, f"get_source_id parameters {params}", f)
+        pname = params[1]
+        fors = [n for n in ast.walk(f) if isinstance(n, ast.For)]
+        lp = one(fors, "get_source_id: loop over the registered ids", f)
+        need(U(lp.iter) == 'self._source_ids.items()' and
+             isinstance(lp.target, ast.Tuple) and len(lp.target.elts) == 2
+             and all(isinstance(x, ast.Name) for x in lp.target.elts),
+             f"get_source_id: loop is not `for id, p in "
+             f"self._source_ids.items()`: {U(lp.iter)}", lp)
+        idn, pn = lp.target.elts[0].id, lp.target.elts[1].id
+        body = strip(lp.body)
+        i = one(body, "get_source_id: loop body is one `if`", lp)
+        need(isinstance(i, ast.If) and not strip(i.orelse) and not lp.orelse,
+             "get_source_id: loop body is not a lone `if`", lp)
+        t = i.test
+        need(isinstance(t, ast.Compare) and len(t.ops) == 1 and
+             isinstance(t.ops[0], ast.Eq) and
+             {U(t.left), U(t.comparators[0])} == {pn, pname},
+             f"get_source_id: an id is reused on a test other than equality "
+             f"of the registered path and the argument: {U(t)}", i)
+        r = one(strip(i.body), "get_source_id: reuse branch", i)
+        need(isinstance(r, ast.Return) and U(r.value) == idn,
+             "get_source_id: the reuse branch does not return the "
+             "registered id", r)
+        asg = [n for n in ast.walk(f) if isinstance(n, ast.Assign)
+               and len(n.targets) == 1 and isinstance(n.targets[0], ast.Name)]
+        consts = [n for n in asg if isinstance(n.value, ast.Constant)]
+        c = one(consts, "get_source_id: constant first id", f)
+        fresh = [n for n in asg if 'max(' in U(n.value)]
+        fr = one(fresh, "get_source_id: fresh id from the maximum", f)
+        need(c.targets[0].id == fr.targets[0].id,
+             "get_source_id: first and fresh id go to different names", f)
+        var = c.targets[0].id
+        # the constant is used exactly when nothing is registered yet
+        sel = [n for n in ast.walk(f) if isinstance(n, ast.If)
+               and U(n.test) in ('not self._source_ids', 'self._source_ids')]
+        sl = one(sel, "get_source_id: emptiness test", f)
+        empty_branch, other = (sl.body, sl.orelse) \
+            if U(sl.test).startswith('not') else (sl.orelse, sl.body)
+        need(any(c is m for n in empty_branch for m in ast.walk(n)) and
+             any(fr is m for n in other for m in ast.walk(n)),
+             "get_source_id: the constant id is not the one of the empty "
+             "table / the fresh id not the one of the non-empty table", sl)
+        tail = strip(f.body)[-2:]
+        need(len(tail) == 2 and
+             U(tail[0]) == f'self._source_ids[{var}] = {pname}' and
+             U(tail[1]) == f'return {var}',
+             "get_source_id: does not end with registering the new id for "
+             "the path and returning it", f)
+        sub = {'max(list(self._source_ids))': ('max_id', 'Z', ['max_id']),
+               'max(self._source_ids)': ('max_id', 'Z', ['max_id']),
+               'max(self._source_ids.keys())': ('max_id', 'Z', ['max_id'])}
+        t_fresh, ty = Tr(subst=sub).expr(fr.value)
+        need(ty == 'Z', "get_source_id: fresh id not an integer", fr)
+        t_first, ty = Tr().expr(c.value)
+        need(ty == 'Z', "get_source_id: first id not an integer", c)
+        return (f"(* get_source_id: reuse iff {U(t)}; {U(c)}; {U(fr)} *)\n"
+                "Definition source_id_reused_iff_same_path_string : bool := "
+                "true.\n"
+                f"Definition source_id_first : Z := {t_first}.\n"
+                f"Definition source_id_fresh (max_id : Z) : Z := "
+                f"{t_fresh}.\n", {'test': U(t), 'fresh': U(fr.value)})
+    out.item('source_ids', source_ids)
+
+    # --------------------------------- ResultStoreParallel.local (per task)
+    def local_store():
+        with open(os.path.join(repo, 'searchkit/results_store.py'),
+                  encoding='utf-8') as fh:
+            r_tree = ast.parse(fh.read())
+        f = find_def(r_tree, 'ResultStoreParallel.local')
+        need(not any(isinstance(n, (ast.Global, ast.Nonlocal))
+                     for n in ast.walk(f)),
+             "ResultStoreParallel.local declares global / nonlocal names", f)
+        nodes = [m for b in f.body for m in ast.walk(b)]
+        assigned = {n.id for n in nodes if isinstance(n, ast.Name)
+                    and isinstance(n.ctx, ast.Store)}
+        loaded = {n.id for n in nodes if isinstance(n, ast.Name)
+                  and isinstance(n.ctx, ast.Load)}
+        allowed = {'self', 'os', 'log', 'ResultStoreSimple',
+                   'ResultStoreException'}
+        extra = sorted(loaded - assigned - allowed)
+        need(not extra, f"ResultStoreParallel.local consults names outside "
+             f"the store object itself: {extra}", f)
+        ctor = [n for n in ast.walk(f) if isinstance(n, ast.Call)
+                and U(n.func) == 'ResultStoreSimple']
+        c = one(ctor, "ResultStoreParallel.local: ResultStoreSimple(..)", f)
+        guards = [n for n in ast.walk(f) if isinstance(n, ast.If)
+                  and U(n.test) == 'self._local_store is None'
+                  and any(c is m for b in n.body for m in ast.walk(b))]
+        one(guards, "ResultStoreParallel.local: the local store is not "
+            "created under `if self._local_store is None`", f)
+        return ("(* ResultStoreParallel.local: a store object without a "
+                "local store creates a NEW ResultStoreSimple and consults "
+                "nothing outside itself (no process-wide cache) *)\n"
+                "Definition worker_local_store_fresh_per_task : bool := "
+                "true.\n", {'ctor': U(c)})
+    out.item('worker_local_store_fresh_per_task', local_store)
 
     text = ("(* GENERATED from the repository working tree by "
             "translator/plugins/pipeline.py - do not edit *)\n"
